@@ -70,6 +70,10 @@ type decWalker struct {
 	bound    string            // loop bound description
 	visited  int
 	appended bool
+	// helper calls: reads already interpreted in the context of one call, and the
+	// parameter bindings in force while a helper's body is interpreted
+	pre  map[memKey]dread
+	bind map[*ssa.Parameter]ssa.Value
 }
 
 func (d *decWalker) addrKey(addr ssa.Value) (memKey, bool) {
@@ -117,11 +121,105 @@ func (d *decWalker) resolve(v ssa.Value) ssa.Value {
 				}
 			}
 			return v
+		case *ssa.Parameter:
+			if b, ok := d.bind[x]; ok {
+				v = b
+				continue
+			}
+			return v
 		default:
 			return v
 		}
 	}
 	return v
+}
+
+// pureHelper: a module function whose body is one straight-line block without
+// calls (an expression helper such as an unpack function).
+func (d *decWalker) pureHelper(call *ssa.Call) (*ssa.Function, *ssa.Return) {
+	g := call.Call.StaticCallee()
+	if g == nil || !d.c.inModule(g) || len(g.Blocks) != 1 || len(g.Params) != len(call.Call.Args) {
+		return nil, nil
+	}
+	var ret *ssa.Return
+	for _, ins := range g.Blocks[0].Instrs {
+		switch x := ins.(type) {
+		case *ssa.Alloc, *ssa.FieldAddr, *ssa.Field, *ssa.UnOp, *ssa.BinOp, *ssa.Convert, *ssa.ChangeType, *ssa.DebugRef, *ssa.Store:
+		case *ssa.Return:
+			ret = x
+		default:
+			return nil, nil
+		}
+	}
+	if ret == nil || len(ret.Results) != 1 {
+		return nil, nil
+	}
+	return g, ret
+}
+
+func (d *decWalker) bindArgs(g *ssa.Function, call *ssa.Call) func() {
+	if d.bind == nil {
+		d.bind = map[*ssa.Parameter]ssa.Value{}
+	}
+	saved := map[*ssa.Parameter]ssa.Value{}
+	for i, p := range g.Params {
+		if old, ok := d.bind[p]; ok {
+			saved[p] = old
+		}
+		d.bind[p] = d.resolve(call.Call.Args[i])
+	}
+	return func() {
+		for _, p := range g.Params {
+			delete(d.bind, p)
+			if old, ok := saved[p]; ok {
+				d.bind[p] = old
+			}
+		}
+	}
+}
+
+// inlineStructCall interprets `dst = helper(args)` for a helper that builds and
+// returns a struct: every member the helper stores is interpreted now, with the
+// helper's parameters bound to this call's arguments.
+func (d *decWalker) inlineStructCall(dst memKey, call *ssa.Call) bool {
+	g, ret := d.pureHelper(call)
+	if g == nil {
+		return false
+	}
+	ld, ok := ret.Results[0].(*ssa.UnOp)
+	if !ok || ld.Op != token.MUL {
+		return false
+	}
+	obj, ok := ld.X.(*ssa.Alloc)
+	if !ok {
+		return false
+	}
+	unbind := d.bindArgs(g, call)
+	defer unbind()
+	if d.pre == nil {
+		d.pre = map[memKey]dread{}
+	}
+	for _, ins := range g.Blocks[0].Instrs {
+		st, ok := ins.(*ssa.Store)
+		if !ok {
+			continue
+		}
+		fa, ok := st.Addr.(*ssa.FieldAddr)
+		if !ok || fa.X != ssa.Value(obj) {
+			continue
+		}
+		key := memKey{dst.root, fieldName(fa)}
+		if dst.path != "" {
+			key.path = dst.path + "." + fieldName(fa)
+		}
+		d.mem[key] = st.Val
+		if rd, ok := d.parseRead("", st.Val, st.Pos()); ok {
+			d.pre[key] = rd
+		} else {
+			delete(d.pre, key)
+		}
+	}
+	return true
 }
 
 func (d *decWalker) newFE() {
@@ -270,6 +368,23 @@ func (d *decWalker) parseRead(target string, v ssa.Value, pos token.Pos) (dread,
 				r.Order = d.orderOfCall(x)
 				return r, true
 			}
+			// a pure scalar helper of the module: continue with its result expression
+			if g, ret := d.pureHelper(x); g != nil && !isStructValue(ret.Results[0].Type()) {
+				unbind := d.bindArgs(g, x)
+				rr, ok := d.parseRead(target, ret.Results[0], pos)
+				unbind()
+				if ok {
+					if r.Mask != 0 {
+						if rr.Mask == 0 {
+							rr.Mask = r.Mask
+						} else {
+							rr.Mask &= r.Mask
+						}
+					}
+					rr.Shift += r.Shift
+					return rr, true
+				}
+			}
 			return r, false
 		case *ssa.UnOp:
 			if x.Op == token.MUL {
@@ -347,6 +462,11 @@ func (d *decWalker) copyStruct(dst, src memKey) {
 				np += rel
 			}
 			d.mem[memKey{dst.root, np}] = v
+			if rd, ok := d.pre[k]; ok {
+				d.pre[memKey{dst.root, np}] = rd
+			} else {
+				delete(d.pre, memKey{dst.root, np})
+			}
 		}
 	}
 }
@@ -372,6 +492,9 @@ func (d *decWalker) exec(b *ssa.BasicBlock) {
 				if sk, ok := d.addrKey(ld.X); ok {
 					d.copyStruct(dk, sk)
 				}
+			}
+			if call, ok := st.Val.(*ssa.Call); ok {
+				d.inlineStructCall(dk, call)
 			}
 			continue
 		}
@@ -416,6 +539,10 @@ func (d *decWalker) collect(k memKey, prefix string, out *[]dread) {
 			pos = ins.Pos()
 		}
 		rd, ok := d.parseRead(target, v, pos)
+		if pr, has := d.pre[memKey{k.root, p}]; has {
+			rd, ok = pr, true
+			rd.Target = target
+		}
 		if !ok {
 			if k0, isC := constInt(d.resolve(v)); isC {
 				rd = dread{Target: target, Off: fmt.Sprintf("const %d", k0), Width: 0, Pos: pos}
